@@ -2,7 +2,7 @@
 
 1. TLC checks the byte-level reference operators of LiteForward.tla on all combinations
    of small field values: the handshake codec round-trips, gate-style rewrites are
-   accepted and an unrelated address is rejected (57 600 cases; 9 600 in quick), and exports the cases
+   accepted and an unrelated address is rejected (69 120 cases; 11 520 in quick), and exports the cases
    (route options x host x protocol x port x intent x handshake shape x delivery).
 2. The harness instantiates each (sampled) case on a real Lite proxy over TCP loopback:
    real client socket, harness listener as backend capturing every byte, random further
@@ -17,8 +17,8 @@ import vlib
 META = {
     "category": "model_checking",
     "text": "TLA+ byte-level operators (PROXY v1/v2 parser, VarInt frame, handshake decoder, virtual-host and "
-            "TCPShield rewrite rules) are self-checked by TLC over 57 600 field combinations; TLC enumerates the "
-            "cases (8 option subsets x 15 hosts x protocols x ports x intents x 4 handshake shapes x 5 deliveries, among them 'grouped' = three concurrent connections held after the handshake re-encode and 'after-failed-backend' = a refusing backend on the same host is tried first); "
+            "TCPShield rewrite rules) are self-checked by TLC over 69 120 field combinations; TLC enumerates the "
+            "cases (8 option subsets x 18 hosts (among them addresses with 300 / 1000 bytes of appended forwarding-like data and 255 two-byte characters) x protocols x ports x intents x 4 handshake shapes x 5 deliveries, among them 'grouped' = three concurrent connections held after the handshake re-encode and 'after-failed-backend' = a refusing backend on the same host is tried first); "
             "the harness runs them through the real lite.Forward over real TCP (harness listener as backend, random "
             "byte streams both ways) and TLC validates the recorded backend and client streams byte for byte "
             "(long tails by SHA-256 chunk digests).",
@@ -30,7 +30,7 @@ META = {
                   "name or the sent address up to the Forge marker (the statement does not define the format further). "
                   "Trailing bytes of a rewritten handshake packet are not required. The PROXY header must carry the "
                   "client's address as source; the destination is not checked. Clients are IPv4 loopback; cases are "
-                  "sampled (quick 400 of 9 600 with two protocols and one port, thorough 6000 of 57 600). SHA-256 is Go's crypto/sha256.",
+                  "sampled (quick 400 of 11 520 with two protocols and one port, thorough 6000 of 69 120). SHA-256 is Go's crypto/sha256.",
     "technique": "TLA+ reference operators, TLC exhaustive self-check and case export, real TCP replay, TLC trace "
                  "validation of recorded byte streams",
 }
@@ -84,6 +84,8 @@ def run(ctx):
                                               ("forge-host" if "\x00" in host else "plain-host"))
         # key: what differs, which rewrites applied (else the shape and whether a PROXY header was on), host class
         kopt = "+".join(applied) if applied else ("norewrite:%s:%s" % (bad["shape"], "pp" if bad["pp"] else "nopp"))
+        if len(bad["host"]) > 255:
+            hk += ":address-longer-than-255-bytes"
         if bad["delivery"] == "grouped":
             hk += ":concurrent-connections"
         if bad["delivery"] == "after-failed-backend":
